@@ -89,12 +89,12 @@ Recyclable(S) == {a \in Pool : \E l \in On(S, a) : ~Held(l)}
 
 \* All ways of giving client m (who has no lease in S) a fresh lease with
 \* acknowledgement status ak.  hs = host names the fresh lease may carry
-\* (besides the one inherited from a recycled lease and, if gen, the name
+\* (besides the one inherited from a recycled lease and, if gen, a name
 \* derived from the address); a non-empty name must be unique in the table.
 Fresh(T, m, a, ak, names) ==
     {T \cup {Lease(m, a, FALSE, ak, h)} : h \in {x \in names : x = "" \/ \A o \in T : o.host # x}}
 Allocs(S, m, ak, hs, gen) ==
-    LET g(a) == IF gen THEN {GenName(a)} ELSE {} IN
+    LET g(a) == IF gen THEN {GenName(a), AltName(a)} ELSE {} IN
     UNION {Fresh(S, m, a, ak, hs \cup g(a)) : a \in FreeAddrs(S)}
     \cup
     UNION {Fresh(S \ On(S, a), m, a, ak, hs \cup g(a) \cup {l.host : l \in On(S, a)}) : a \in Recyclable(S)}
